@@ -18,6 +18,7 @@ import random
 from .. import ezspref as X
 from .. import vloop, ncpsim, valuegen
 from ..runner import Acc
+from .. import logmode
 from ..contracts import install_status_contract
 
 PROPERTY = "C08"
@@ -100,7 +101,7 @@ def run_shard(desc) -> Acc:
     import bellows.ezsp as e
     from bellows.exception import InvalidCommandError
 
-    logging.disable(logging.CRITICAL)
+    logmode.apply(desc)
     acc = Acc()
     install_status_contract(acc)
     V = desc["version"]
